@@ -51,7 +51,8 @@ func endorseSigsDistinctRule(c *an.Ctx) {
 			c.Check(inAdd, "confine|EndorseSigs|"+an.FuncName(fn), "the per-peer endorsement lists are updated only by addBlockEndorsementLocked (which keeps one entry per peer and proposer)", c.P.Rel(w.In.Pos()), "new writer of CandidateInfo.EndorseSigs")
 		}
 	}
-	c.RequireMin("updates of CandidateInfo.EndorseSigs", nUpd, 3)
+	// (a vacuity guard only: how many update statements the one writer uses is its own business)
+	c.RequireMin("updates of CandidateInfo.EndorseSigs", nUpd, 1)
 
 	// (b) growing updates
 	if len(add.Params) < 4 {
